@@ -7,7 +7,8 @@ Case kinds (see coq/C16/Run.v and harness/C16.cpp):
  3 query points: indices, rank, cell membership     8 iterator
  4 Grid::multiple / divider / dilate                9 Rotation object (matrix from cos/sin, direct / inverse, matrix -> angles -> matrix)
 11 point -> grid migration (plain / filling / ball tree)   12 grid -> point migration + locateDataInGrid   13 grid -> grid migration
-14 session with mutations of the Grid object
+14 session with mutations of the Grid object   16 session on a DbGrid: mutations + db_grid_define_coordinates and every other materialisation of node coordinates
+17 createFromGridShrink / createFromGridExtend (inherited dimensions vs input grid)
 10 session: ONE Grid/DbGrid object answers a random sequence of const queries (history independence, C16_query_history_independent)
 """
 import sys, os, math, itertools
@@ -148,6 +149,7 @@ QNAME = {0: 'getCoordinate', 1: 'getCoordinate', 20: 'rankToCoordinate', 2: 'ran
          7: 'getCoordinatesByIndice', 8: 'getCoordinatesByCorner', 10: 'sampleBelongsToCell', 11: 'getCenterIndices', 12: 'multiple',
          13: 'divider', 14: 'dilate', 15: 'indicesToCoordinate', 16: 'getCellCoordinatesByCorner', 17: 'iterator',
          21: 'indiceToCoordinate', 22: 'point_to_grid',
+         23: 'db_grid_define_coordinates', 24: 'generateCoordinates', 25: 'getAllCoordinates', 26: 'getAllCoordinatesMat', 27: 'getSampleCoordinates', 28: 'getSlice',
          100: 'setX0', 101: 'setDX', 102: 'setNX', 103: 'setRotationByAngles', 104: 'setRotationByVector', 105: 'resetFromVector'}
 
 def gen_point(rng, gs, M, rotated):
@@ -236,6 +238,44 @@ def gen_msession(rng, gs0, hv):
             items.append(gen_query(rng, gs, hv, focus))
     return items
 
+def gen_dbsession(rng, gs0, hv):
+    """one DbGrid object: mutations of its grid (setX0 / setDX / gridCopyParams(rotation)), then db_grid_define_coordinates and
+    the other functions that materialise node coordinates, interleaved with ordinary queries"""
+    gs = dict(gs0); gs['x0'] = list(gs['x0']); gs['dx'] = list(gs['dx'])
+    n = gs['n']; ntot = math.prod(gs['nx'])
+    angle_keys = [k for k in hv.got if k[0] == n and n in (2, 3)]
+    DX = [Fraction(1), Fraction(2), Fraction(1, 2), Fraction(1, 4), Fraction(3, 8), Fraction(5, 4), Fraction(3)]
+    items = []
+    focus = [rng.randrange(ntot)]
+    def materialise():
+        f = rng.choice([23, 23, 23, 25, 26, 27, 28, 24])
+        if f == 27: return [27, rng.randrange(ntot)]
+        if f == 28:
+            if n != 3: return [23]
+            pos = rng.randrange(3); return [28, pos, rng.randrange(gs['nx'][pos])]
+        return [f]
+    for _ in range(rng.randint(4, 14)):
+        r = rng.random()
+        if r < .3:
+            m = rng.random()
+            if m < .4:
+                d = rng.randrange(n); v = rnd_dyadic(rng, -2048, 2048, 8); gs['x0'][d] = v; items.append([100, d, dy(v)])
+            elif m < .7:
+                d = rng.randrange(n); v = rng.choice(DX); gs['dx'][d] = v; items.append([101, d, dy(v)])
+            elif angle_keys:
+                k = rng.choice(angle_keys); gs['rot'] = ('angles', list(k[1])); items.append([103, [dy(a) for a in k[1]], rot_item(gs, hv)])
+            items.append([23])            # the documented use: the characteristics have changed, rewrite the coordinates
+        elif r < .6: items.append(materialise())
+        else: items.append(gen_query(rng, gs, hv, focus))
+    items.append([23]); items.append([25])
+    # at most one generateCoordinates (it adds columns and prints the data base)
+    seen = False
+    for k, it in enumerate(items):
+        if it[0] == 24:
+            if seen: items[k] = [23]
+            seen = True
+    return items
+
 def session_wrong(q, a_i, a_m, marg):
     """None when the implementation's answer to query q agrees with the model's, else a short text"""
     f = q[0]
@@ -243,7 +283,25 @@ def session_wrong(q, a_i, a_m, marg):
     try:
         if f in (0, 1, 20, 21):
             return None if close_enough(float(undy(a_i)), float(unq(a_m)), TOL) else 'impl %r, geometry %r' % (float(undy(a_i)), float(unq(a_m)))
-        if f in (6, 9, 18, 7, 8, 15, 16):
+        if f in (23, 24):        # stored X columns after the call, and getCoordinate, against the geometry
+            stored, computed, rows = a_i[0], a_i[1], a_m
+            if len(stored) != len(rows) or len(computed) != len(rows): return '%d stored / %d computed rows for %d nodes' % (len(stored), len(computed), len(rows))
+            for r in range(len(rows)):
+                if not vclose(vd(stored[r]), vq(rows[r])): return 'node %d: stored coordinates %s, geometry (getCoordinate / indicesToCoordinate) %s' % (r, [float(x) for x in vd(stored[r])], [float(x) for x in vq(rows[r])])
+                if not vclose(vd(computed[r]), vq(rows[r])): return 'node %d: getCoordinate %s, geometry %s' % (r, [float(x) for x in vd(computed[r])], [float(x) for x in vq(rows[r])])
+            return None
+        if f in (25, 26):
+            if len(a_i) != len(a_m): return '%d rows for %d nodes' % (len(a_i), len(a_m))
+            for r in range(len(a_m)):
+                if not vclose(vd(a_i[r]), vq(a_m[r])): return 'node %d: %s, geometry %s' % (r, [float(x) for x in vd(a_i[r])], [float(x) for x in vq(a_m[r])])
+            return None
+        if f == 28:
+            if a_i == []: return None
+            rk, rows = a_i
+            for k, r in enumerate(rk):
+                if not (0 <= r < len(a_m)) or not vclose(vd(rows[k]), vq(a_m[r])): return 'slice item %d (node %d): %s, geometry %s' % (k, r, [float(x) for x in vd(rows[k])], [float(x) for x in vq(a_m[r])] if 0 <= r < len(a_m) else None)
+            return None
+        if f in (6, 9, 18, 7, 8, 15, 16, 27):
             return None if vclose(vd(a_i), vq(a_m)) else 'impl %s, geometry %s' % ([float(x) for x in vd(a_i)], [float(x) for x in vq(a_m)])
         if f in (2, 3, 11, 17):
             return None if a_i == a_m else 'impl %s, model %s' % (a_i, a_m)
@@ -316,6 +374,8 @@ def migrate_verdict(ctx, viol, path, what, v_i, rec, replay, nodmax, compare_cod
     if compare_code and v_i == code: key = 'migrate:%s:%s' % (path, 'assignment' if nodmax else 'dmax')
     elif v_i == oldc: key = 'migrate:%s:lower-corner-cell' % direction
     elif v_i == oldd: key = 'migrate:%s:dmax' % path
+    elif path == 'point-to-grid:fill' and not nodmax and v_i is None and code is not None:
+        key = 'migrate:point-to-grid:fill:dmax-sweep'      # the pruned sweep of expandPointToGrid stops too early (not modelled: the model is its intended result)
     else: key = 'migrate:%s:%s' % (path, other or ('closest-sample' if path.endswith(':ball') else 'unmodelled'))
     viol(key, '%s: receives %s, the documented rule gives %s (model of the code: %s)' % (
         what, 'NA' if v_i is None else float(v_i), 'NA' if spec is None else float(spec), 'NA' if code is None else float(code)), replay)
@@ -514,6 +574,14 @@ def run(ctx):
             pts.append([dy(round_dy(a + b, 20)) for a, b in zip(w, gs['x0'])])
         add([7, G, dy(EPS6), pts], kind=7, gs=gs)
         add([10, G, gen_session(rng, gs, hv)], kind=10, gs=gs)
+        # kind 16: DbGrid session (stored coordinates rewritten / read after mutations); kind 17: shrink / extend
+        if ntot <= 200:
+            add([16, G, gen_dbsession(rng, gs, hv)], kind=16, gs=gs)
+        # (angles given to a 1-D / 4-D grid are stored but build the identity: such grids are left out here, the child would use them)
+        plain = gs['rot'] is None
+        zrot = n == 3 and is_rotated(gs, hv) and gs['rot'][0] == 'angles' and all(a == 0 for a in gs['rot'][1][1:])
+        if n >= 2 and (plain or zrot): add([17, G, 0, n - 1 if zrot else rng.randrange(n)], kind=17, gs=gs)
+        if n <= 2 and ntot <= 60 and (plain or (n == 2 and is_rotated(gs, hv))): add([17, G, 1, rng.randint(2, 4)], kind=17, gs=gs)
         # kinds 11-13: migration bookkeeping
         if ntot <= 150:
             dt = rng.choice([1, 1, 2]); fill = rng.choice([0, 0, 0, 1, 1, 2])
@@ -592,6 +660,12 @@ def run(ctx):
         'sessions also cover the mutating API (setX0/setDX/setNX/setRotationBy.../resetFromVector, C16_mutation_refresh)',
         'the corpus keeps the witnesses of the defects repaired in /repo (dilate, multiple/divider rotated, createSubGrid rotated) as regression cases; '
         'still open: migrate grid->point uses the corner-anchored cell (known finding migrate:grid-to-point:lower-corner-cell)',
+        'places that MATERIALISE node coordinates outside class Grid, each compared stored-vs-geometry: DbGrid::reset/_createGridCoordinates (kinds 6), createCoarse/Refine/SubGrid (6), '
+        'db_grid_define_coordinates after setX0/setDX/gridCopyParams (kind 16, C16_define_coordinates*), DbGrid::generateCoordinates, Db::getAllCoordinates / getAllCoordinatesMat / getSampleCoordinates, '
+        'DbGrid::getCoordinatesPerSample(InPlace), DbGrid::getSlice (3-D), createFromGridShrink / createFromGridExtend (kind 17: inherited dimensions vs the input grid), getCellCoordinatesByCorner / ByCorner (3, 10); '
+        'CONSUMERS of node coordinates (not materialising; listed, covered only through the conversions they call): CalcMigrate (modelled), distance_inter / db.cpp, dbtools.cpp, DbHelper.cpp, CalcGridToGrid, '
+        'CalcSimpleInterpolation, KrigingSystem (image / block discretisation), ANoStat, ProjConvolution, RuleShadow, AMesh / MeshETurbo / Delaunay, Model, Polygons, CalcSimuFFT / Partition / TurningBands / SimuBoolean, '
+        'SpatialIndices, Classical (stats on grids), Ball (tree on coordinates), VCloud; not reached by a comparison: DbGrid::createCoveringDb / resetFromPolygon (geometry from extents), getCellEdges / getGridEdges (compose checked functions)',
         'not covered: Rotation::setMatrixDirect validity test (isMatrixRotation / determinant), angles recovered from a matrix (atan2), gridIndices / decodeGridSorting, '
         'createFromGridExtend / Shrink, variable migration inside createCoarse / createRefine (only the geometry), C int overflow, NA coordinates']
     ctx.assumptions = ['origins, meshes and query points are dyadic rationals (< 2^40 mantissa); rotation matrices are read back from the library as exact doubles',
@@ -843,7 +917,18 @@ def compare(ctx, c, m, ii, mi, viol, hv):
                 viol('iterator:user-order', 'iteratorInit(%s): iteratorNext returns %s, expected %s (order[0] is the fastest dimension)' % (order, ii[1], want), {'case': sx_str(c), 'expected': want})
             elif ii[1] != seq_m:
                 viol('model-drift:iterator:user-order', 'impl %s / model %s' % (ii[1], seq_m), {'case': sx_str(c)}, False)
-    elif kind == 14:
+    elif kind == 17:
+        nxc, dxc, x0c, rows, mok = ii
+        if mok != 1: viol('model-drift:rotation-matrix', 'the library does not use the rotation matrix given to the model', {'case': sx_str(c)}, False); return
+        name = 'createFromGridShrink' if c[2] == 0 else 'createFromGridExtend'
+        rot = rotdesc(gs, hv) if gs else rd
+        ctx.count('17|' + sx_str(c))
+        for r, (cc, pc, sc) in enumerate(rows):
+            if not vclose(vd(cc), vd(pc)):
+                viol('derived:%s:%s' % (name, rot), '%s: node %d of the new grid is at %s (inherited dimensions), the corresponding node of the input grid at %s' % (name, r, [float(x) for x in vd(cc)], [float(x) for x in vd(pc)]), {'case': sx_str(c), 'node': r}); break
+            if not vclose(vd(sc), vd(cc)):
+                viol('coords:DbGrid::stored-coordinates:%s' % name, '%s: node %d: stored coordinates %s, getCoordinate %s' % (name, r, [float(x) for x in vd(sc)], [float(x) for x in vd(cc)]), {'case': sx_str(c), 'node': r}); break
+    elif kind in (14, 16):
         qs = c[2]
         if len(ii) != len(qs) + 1:
             viol('crash:session', 'the session produced %d answers for %d items' % (len(ii) - 1, len(qs)), {'case': sx_str(c)}); return
@@ -858,12 +943,12 @@ def compare(ctx, c, m, ii, mi, viol, hv):
             if w: bad = (p, w); break
         if bad is not None:
             p, w = bad
-            small = session_shrink(ctx, G, qs, p, 14)
+            small = session_shrink(ctx, G, qs, p, kind)
             fn = QNAME.get(small[-1][0], '?'); prev = QNAME.get(small[-2][0], '?') if len(small) > 1 else None
             key = 'session:%s-after-%s' % (fn, prev) if prev else 'session:%s-alone' % fn
-            viol(key, 'one Grid object, %d items (mutations included): the answer of %s%s is wrong: %s (shrunk from %d items)' % (
-                len(small), fn, ' right after ' + prev if prev else '', w, len(qs)),
-                {'case': sx_str([14, G, small]), 'items': [QNAME.get(q[0]) for q in small], 'original_case': sx_str(c)})
+            viol(key, 'one %s object, %d items (mutations included): the answer of %s%s is wrong: %s (shrunk from %d items)' % (
+                'Grid' if kind == 14 else 'DbGrid', len(small), fn, ' right after ' + prev if prev else '', w, len(qs)),
+                {'case': sx_str([kind, G, small]), 'items': [QNAME.get(q[0]) for q in small], 'original_case': sx_str(c)})
     elif kind == 10:
         nx = G[0]; qs = c[2]; ntot = math.prod(nx)
         if len(ii) != len(qs) + 1:
